@@ -5,7 +5,7 @@ from concurrent.futures import ThreadPoolExecutor
 
 VERIF = os.path.dirname(os.path.dirname(os.path.abspath(__file__)))
 REPO = os.environ.get('VERIF_REPO', '/repo')
-BUILD = os.path.join(VERIF, 'build')
+BUILD = os.environ.get('VERIF_BUILD_DIR') or os.path.join(VERIF, 'build')      # (the override lets snapshot runs share the cache)
 HARNESS = os.path.join(VERIF, 'harness')
 
 CONFIGS = {1: 'back', 2: 'back_ct', 3: 'back_circ', 4: 'back11', 5: 'mp11', 6: 'mp11_fpa', 7: 'mp11_ct'}
@@ -23,7 +23,7 @@ def tree_hash():
                 dirs.sort()
                 for f in sorted(files):
                     p = os.path.join(root, f)
-                    h.update(p.encode())
+                    h.update(os.path.relpath(p, base).encode())      # content and relative name: the same tree elsewhere shares the cache
                     with open(p, 'rb') as fh:
                         h.update(fh.read())
         _tree_hash = h.hexdigest()
